@@ -139,6 +139,20 @@ theorem setExponent_inf (c : Ctx) (d : Dec) (res : Cond) (xs : List Int)
   rw [if_neg (by omega), if_neg (by omega), if_neg (by omega), if_pos (by omega)]
   simp [h5]
 
+theorem setExponent_clamp (c : Ctx) (d : Dec) (res : Cond) (xs : List Int)
+    (hx : checkXs xs = none)
+    (h1 : sumInts xs + (ndigits d.coeff : Int) - 1 ≤ 100000)
+    (h2 : -100000 ≤ sumInts xs + (ndigits d.coeff : Int) - 1)
+    (h3 : c.emin ≤ sumInts xs + (ndigits d.coeff : Int) - 1)
+    (h4 : sumInts xs + (ndigits d.coeff : Int) - 1 > c.emax)
+    (h5 : d.isZero = true) :
+    setExponent c d res xs = seFinish d c.emax (res ||| cClamped) := by
+  unfold setExponent
+  rw [hx]
+  simp only [MaxExponent, MinExponent]
+  rw [if_neg (by omega), if_neg (by omega), if_neg (by omega), if_pos (by omega)]
+  simp [h5]
+
 /-- subnormal regime, exponent already at or above Etiny: nothing is discarded -/
 theorem setExponent_sub (c : Ctx) (d : Dec) (res : Cond) (xs : List Int)
     (hx : checkXs xs = none)
@@ -263,20 +277,22 @@ theorem Dec.eta_exp (d : Dec) : ({ d with exp := d.exp } : Dec) = d := by cases 
 def qco (d : Dec) : Nat := if d.exp > 0 then d.coeff * 10 else d.coeff
 
 /-- `Round` in `quantize`'s shifted frame (precision `p = nd - k`, exponent `-k`) -/
-theorem roundX_quant (c : Ctx) (v : Dec) (k p : Nat) (hp : ndigits v.coeff = p + k)
+theorem roundX_quant (c : Ctx) (v : Dec) (hv : v.form = .finite) (k p : Nat) (hp : ndigits v.coeff = p + k)
     (hk0 : 0 < k) (hk1 : k ≤ 100000)
     (hcarry : k < 100000 ∨ ndigits (rnd c.mode v.neg v.coeff k).1 ≤ ndigits (v.coeff / 10 ^ k))
-    (hemax0 : 0 ≤ c.emax) (hemax1 : c.emax ≤ 100000) :
-    ∀ r, roundXFin { c with prec := p, emin := MinExponent } { v with exp := -(k : Int) } false = r →
+    (F : Int) :
+    ∀ r, roundXFin { c with prec := p, emin := MinExponent, emax := F } { v with exp := -(k : Int) } false = r →
     (r.1.form = v.form ∧ r.1.neg = v.neg ∧ qco r.1 = (rnd c.mode v.neg v.coeff k).1 ∧
       r.2.inexact = (rnd c.mode v.neg v.coeff k).2 ∧ r.2.rounded = true ∧
       r.2.overflow = false ∧ r.2.underflow = false ∧ r.2.invalidOp = false ∧
       r.2.sysOverflow = false ∧ r.2.sysUnderflow = false ∧ r.2.subnormal = false) ∨
-    ((ndigits (rnd c.mode v.neg v.coeff k).1 : Int) - 1 > c.emax ∧ (ndigits (qco r.1) : Int) > c.emax) := by
+    (r.2.overflow = true ∧
+      ((ndigits (rnd c.mode v.neg v.coeff k).1 : Int) - 1 > 100000 ∨
+       ((rnd c.mode v.neg v.coeff k).1 ≠ 0 ∧ (ndigits (rnd c.mode v.neg v.coeff k).1 : Int) - 1 > F))) := by
   intro r hr
   have h1 : ¬ (-(k : Int) + (ndigits v.coeff : Int) - 1 < MinExponent) := by
     simp only [MinExponent]; omega
-  rw [roundX_round { c with prec := p, emin := MinExponent } { v with exp := -(k : Int) } false k
+  rw [roundX_round { c with prec := p, emin := MinExponent, emax := F } { v with exp := -(k : Int) } false k
         (by simp) (by simp [h1]) (by simp; omega) hk0 hk1] at hr
   simp only [] at hr
   obtain ⟨S, hS, hE, hY, hN, hC⟩ := ryd_spec c.mode v.neg v.coeff k
@@ -294,28 +310,36 @@ theorem roundX_quant (c : Ctx) (v : Dec) (k p : Nat) (hp : ndigits v.coeff = p +
   have hk' : ¬ (-(k : Int) > 0) := by omega
   have hco : (if (S : Int) > 0 then Y * 10 else Y) = R.1 := by
     rcases (by omega : S = 0 ∨ S = 1) with h | h <;> subst h <;> simp at hY ⊢ <;> exact hY
+  have hpos := ndigits_pos Y
   by_cases hb1 : (S : Int) + (ndigits Y : Int) - 1 > 100000
   · rw [setExponent_big _ _ _ _ hx (by simp only [hsum]; omega)] at hr
     subst hr
     right
-    simp only [qco, hk', if_false]
-    constructor <;> omega
-  · by_cases hb2 : (S : Int) + (ndigits Y : Int) - 1 > c.emax
-    · have hY0 : Y ≠ 0 := by
-        intro h0
-        subst h0
-        have : ndigits 0 = 1 := by decide
+    refine ⟨by simp [cOverflow], Or.inl (by omega)⟩
+  · by_cases hb2 : (S : Int) + (ndigits Y : Int) - 1 > F
+    · by_cases hY0 : Y = 0
+      · -- a zero is clamped to the frame's Emax, never turned into an infinity
+        subst hY0
+        have hn0 : ndigits 0 = 1 := by decide
         have hR0 : R.1 = 0 := by rw [← hY]; simp
-        rw [hR0] at hN
-        omega
-      rw [setExponent_inf _ _ _ _ hx (by simp only [hsum]; omega) (by simp only [hsum]; omega)
-            (by simp only [hsum, MinExponent]; omega) (by simp only [hsum]; omega)
-            (by simp [Dec.isZero, hY0])] at hr
-      subst hr
-      right
-      simp only [seFinish, qco, hsum]
-      rw [hco]
-      constructor <;> omega
+        have hS0 : S = 0 := by rw [hR0] at hN; omega
+        subst hS0
+        rw [setExponent_clamp _ _ _ _ hx (by simp only [hsum]; omega) (by simp only [hsum]; omega)
+              (by simp only [hsum, MinExponent]; omega) (by simp only [hsum]; omega)
+              (by simp [Dec.isZero, hv])] at hr
+        subst hr
+        left
+        have hF : ¬ (F > 0) := by rw [hn0] at hb2; omega
+        simp [seFinish, qco, hF, hR0, f1, f2, f3, f4, f5, f6, f7, f8, cClamped]
+      · have hR0 : R.1 ≠ 0 := by
+          rw [← hY]
+          exact Nat.mul_ne_zero hY0 (Nat.pos_iff_ne_zero.1 (Nat.pow_pos (by decide)))
+        rw [setExponent_inf _ _ _ _ hx (by simp only [hsum]; omega) (by simp only [hsum]; omega)
+              (by simp only [hsum, MinExponent]; omega) (by simp only [hsum]; omega)
+              (by simp [Dec.isZero, hY0])] at hr
+        subst hr
+        right
+        refine ⟨by simp [seFinish, cOverflow, cInexact, f8], Or.inr ⟨hR0, by omega⟩⟩
     · rw [setExponent_ok _ _ _ _ hx (by simp only [hsum]; omega) (by simp only [hsum]; omega)
             (by simp only [hsum, MinExponent]; omega) (by simp only [hsum]; omega)
             (by simp [f8])] at hr
@@ -343,15 +367,27 @@ theorem small_div (n k : Nat) (hn : 0 < n) (h : ndigits n < k) :
   have h4 : n < 10 ^ k := by omega
   exact ⟨Nat.div_eq_of_lt h4, Nat.mod_eq_of_lt h4, by omega⟩
 
+theorem frameEmax_lt (emax e A : Int) (hA : 0 ≤ A) (h : A > frameEmax emax e) :
+    A > 100000 ∨ e + A > emax := by
+  unfold frameEmax at h
+  simp only [] at h
+  by_cases a : emax - e > MaxExponent
+  · rw [if_pos a] at h; simp only [MaxExponent] at h a; omega
+  · rw [if_neg a] at h
+    by_cases b : emax - e < MinExponent
+    · rw [if_pos b] at h; simp only [MinExponent] at h b; omega
+    · rw [if_neg b] at h; simp only [MaxExponent, MinExponent] at a b; omega
+
 theorem quantizeCore_spec (c : Ctx) (x : Dec) (hx : x.form = .finite) (e : Int)
-    (hemax0 : 0 ≤ c.emax) (hemax1 : c.emax ≤ 100000)
     (hgap : x.exp - e ≤ 100000)
     (hgap2 : (ndigits x.coeff : Int) < e - x.exp ∨ e - x.exp < 100000 ∨
       (e - x.exp = 100000 ∧
         ndigits (roundAt c.mode x.neg x.coeff 1 x.exp e).1 ≤ ndigits (x.coeff / 10 ^ 100000))) :
     QGood x e (roundAt c.mode x.neg x.coeff 1 x.exp e) (quantizeCore c x e) ∨
-    ((ndigits (roundAt c.mode x.neg x.coeff 1 x.exp e).1 : Int) - 1 > c.emax ∧
-      (ndigits (quantizeCore c x e).1.coeff : Int) > c.emax) := by
+    ((quantizeCore c x e).2.overflow = true ∧
+      ((ndigits (roundAt c.mode x.neg x.coeff 1 x.exp e).1 : Int) - 1 > 100000 ∨
+       ((roundAt c.mode x.neg x.coeff 1 x.exp e).1 ≠ 0 ∧
+         e + (ndigits (roundAt c.mode x.neg x.coeff 1 x.exp e).1 : Int) - 1 > c.emax))) := by
   unfold quantizeCore
   simp only []
   by_cases hd : e - x.exp < 0
@@ -397,8 +433,9 @@ theorem quantizeCore_spec (c : Ctx) (x : Dec) (hx : x.form = .finite) (e : Int)
             subst this
             exact h.2
         rw [roundX_finite _ _ _ (show ({ x with exp := -(k : Int) } : Dec).form = .finite from hx)]
-        have key := roundX_quant c x k p hp' hk0 (by omega) hc' hemax0 hemax1 _ rfl
-        generalize roundXFin { c with prec := p, emin := MinExponent } { x with exp := -(k : Int) } false = r at key ⊢
+        have key := roundX_quant c x hx k p hp' hk0 (by omega) hc' (frameEmax c.emax e) _ rfl
+        generalize roundXFin { c with prec := p, emin := MinExponent, emax := frameEmax c.emax e }
+          { x with exp := -(k : Int) } false = r at key ⊢
         have hA : (if r.fst.exp > 0 then ({ r.fst with coeff := r.fst.coeff * 10 } : Dec) else r.fst).form
             = r.fst.form := by split <;> rfl
         have hB : (if r.fst.exp > 0 then ({ r.fst with coeff := r.fst.coeff * 10 } : Dec) else r.fst).neg
@@ -410,7 +447,13 @@ theorem quantizeCore_spec (c : Ctx) (x : Dec) (hx : x.form = .finite) (e : Int)
         · left
           simp only [QGood, k1, k2, k3, k4, k5, k6, k7, k8, k9, k10, k11, hx, and_self, implies_true]
         · right
-          exact ⟨k1, k2⟩
+          refine ⟨k1, ?_⟩
+          rcases k2 with k2 | ⟨k2, k3⟩
+          · exact Or.inl k2
+          · have hpos := ndigits_pos (rnd c.mode x.neg x.coeff k).1
+            rcases frameEmax_lt c.emax e _ (by omega) k3 with h | h
+            · exact Or.inl h
+            · exact Or.inr ⟨k2, by omega⟩
     · left
       rw [if_neg hd0, roundAt_nonpos _ _ _ _ _ (by omega)]
       have : x.exp - e = 0 := by omega
@@ -419,14 +462,14 @@ theorem quantizeCore_spec (c : Ctx) (x : Dec) (hx : x.form = .finite) (e : Int)
 
 /-! ## `Context.round` on a value that already fits -/
 
-theorem ctxRound_fit (c : Ctx) (hc : c.WF) (d : Dec) (hf : d.form = .finite)
+theorem ctxRound_fit (c : Ctx) (c1 : 1 ≤ c.prec) (c0 : 0 ≤ c.emax) (c3 : c.emax ≤ 100000)
+    (c4 : -100000 ≤ c.emin) (c5 : c.emin ≤ 0) (d : Dec) (hf : d.form = .finite)
     (hnd : ndigits d.coeff ≤ c.prec) (he1 : c.emin - (c.prec : Int) + 1 ≤ d.exp)
     (he2 : d.exp ≤ c.emax) (he3 : -100000 ≤ d.exp) :
     if d.coeff ≠ 0 ∧ d.exp + (ndigits d.coeff : Int) - 1 > c.emax then (ctxRoundFin c d).2.overflow = true
     else (ctxRoundFin c d).1 = d ∧ (ctxRoundFin c d).2.inexact = false ∧ (ctxRoundFin c d).2.overflow = false ∧
       (ctxRoundFin c d).2.underflow = false ∧ (ctxRoundFin c d).2.invalidOp = false ∧
       (ctxRoundFin c d).2.sysOverflow = false ∧ (ctxRoundFin c d).2.sysUnderflow = false := by
-  obtain ⟨c1, c2, c3, c4, c5⟩ := hc
   have hpos := ndigits_pos d.coeff
   have h0 : (true && c.prec == 0) = false := by
     have : c.prec ≠ 0 := by omega
@@ -521,7 +564,7 @@ theorem quantizeCore_sys (c : Ctx) (x : Dec) (hx : x.form = .finite) (e : Int)
     simp only [MinExponent]; omega
   by_cases hbig : k > 100000
   · left
-    rw [roundX_toobig { c with prec := p, emin := MinExponent } { x with exp := -(k : Int) } false
+    rw [roundX_toobig { c with prec := p, emin := MinExponent, emax := frameEmax c.emax e } { x with exp := -(k : Int) } false
           (by simp) (by simp [h1]) (by simp only []; omega)]
     have hk'' : ¬ (-(k : Int) > 0) := by omega
     simp only [hk'', if_false]
@@ -531,7 +574,7 @@ theorem quantizeCore_sys (c : Ctx) (x : Dec) (hx : x.form = .finite) (e : Int)
     have hc1 := hcarry (by omega)
     rw [roundAt_pos _ _ _ _ _ k hk', ← hk1] at hc1
     have hE := ryd_carry c.mode x.neg x.coeff k hc1
-    rw [roundX_round { c with prec := p, emin := MinExponent } { x with exp := -(k : Int) } false
+    rw [roundX_round { c with prec := p, emin := MinExponent, emax := frameEmax c.emax e } { x with exp := -(k : Int) } false
           k (by simp) (by simp [h1]) (by simp only []; omega) (by omega) (by omega)]
     simp only [hE]
     rw [setExponent_sys _ _ _ _ _ (by omega) (by omega) (by omega)]
